@@ -12,7 +12,7 @@ def sessions(ctx):
     return it
 
 
-def real_gdb_sessions(ctx, rep):
+def real_gdb_sessions(ctx, rep, rel=None, n=None, salt=7919, tag='real-gdb', destroy=0.18, extra=()):
     """the same kind of event sequences - messages on several connection addresses (client and server side, from the main and
     from other threads), destructions of known / closed / never-seen connections, address reuse - executed by the real plugin
     inside the real gdb on the mock libwayland"""
@@ -20,15 +20,15 @@ def real_gdb_sessions(ctx, rep):
     import e3session, gen, protoextract, tracecheck
     d = protoextract.load()
     traces = []
-    for k in range(ctx.pick(12, 80)):
-        r = random.Random(ctx.seed * 7919 + k)
+    for k in range(n if n is not None else ctx.pick(12, 80)):
+        r = random.Random(ctx.seed * salt + k)
         addrs = ['0x5555aa10', '0x5555bb20', '0x7ffff0c0'][:r.randint(1, 3)]
         live, ev, t = {}, [], 5000
         for _ in range(r.randint(12, 45)):
             t += 10
             a = r.choice(addrs)
             c = r.random()
-            if c < 0.18:
+            if c < destroy:
                 target = a if r.random() < 0.7 else r.choice(addrs + ['0xdeadbeef'])
                 ev.append({'in': {'e': 'destroy', 'addr': target}})
                 live.pop(target, None)
@@ -51,17 +51,42 @@ def real_gdb_sessions(ctx, rep):
         tr = {'init': {'show': True, 'hasf': False, 'hasb': False}, 'events': ev}
         e3session.run(tr)
         traces.append(tr)
-        rep.case('real-gdb:' + str(k))
+        rep.case(tag + ':' + str(k))
+    for k, tr in enumerate(extra):
+        e3session.run(tr)
+        traces.append(tr)
+        rep.case(tag + ':extra:' + str(k))
     v = tracecheck.validate_parallel(traces, name='c15gdb', spec=gdbbase.SPEC)
     rep.add_tlc(v, 'TraceGdb on %d sessions of the real plugin in the real gdb (%d events)' % (v.ntraces, v.nsteps))
     rep.traces += v.ntraces
-    rel = relevant('C15')
+    rel = rel or relevant('C15')
     for t, l, asp in v.failing(rel):
         tr = traces[t - 1]
-        rep.violation('real-gdb:' + classify(tr, l, [a for a in asp if rel(a)]),
+        rep.violation(tag + ':' + classify(tr, l, [a for a in asp if rel(a)]),
                       'in the real gdb, event %d (%s) differs from GdbSession!GStep in %s' % (l, sessionprop.describe(tr, l), [a for a in asp if rel(a)]),
                       {'kind': 'realgdb', 'trace': sessionprop.inputs_only(tr), 'step': l})
-    rep.extra['real_gdb_sessions'] = len(traces)
+    rep.extra['real_gdb_sessions'] = rep.extra.get('real_gdb_sessions', 0) + len(traces)
+
+
+def null_objects_session(server=False):
+    """closures with null object arguments whose interface the message declares (and one that declares none), sent and received"""
+    def hit(t, m, side=None):
+        e = {'e': 'hit', 'addr': '0x5555aa10', 'thread': 1, 't': t, 'm': m}
+        if side:
+            e['side'] = side
+        return {'in': e}
+
+    def M(ty, i, name, sent, args):
+        return {'ttype': ty, 'tid': i, 'name': name, 'sent': sent, 'args': args}
+    c = not server       # requests are sent by a client
+    ev = [hit(1000, M('wl_display', 1, 'get_registry', c, [{'k': 'new', 'type': 'wl_registry', 'id': 2}]), 'server' if server else 'client'),
+          hit(1100, M('wl_registry', 2, 'bind', c, [{'k': 'int', 'v': 1}, {'k': 'str', 's': 'wl_compositor'}, {'k': 'int', 'v': 4}, {'k': 'new', 'type': '', 'id': 3}])),
+          hit(1200, M('wl_compositor', 3, 'create_surface', c, [{'k': 'new', 'type': 'wl_surface', 'id': 4}])),
+          hit(1300, M('wl_surface', 4, 'attach', c, [{'k': 'nil', 'type': '', 'decl': 'wl_buffer'}, {'k': 'int', 'v': 5}, {'k': 'int', 'v': 7}])),
+          hit(1400, M('wl_surface', 4, 'set_input_region', c, [{'k': 'nil', 'type': '', 'decl': 'wl_region'}])),
+          hit(1500, M('wl_surface', 4, 'enter', not c, [{'k': 'nil', 'type': '', 'decl': 'wl_output'}])),
+          hit(1600, M('wl_surface', 4, 'set_opaque_region', c, [{'k': 'nil', 'type': '', 'decl': 'wl_region'}]))]
+    return {'init': {'show': True, 'hasf': False, 'hasb': False}, 'events': ev}
 
 
 def classify(trace, step, aspects):
